@@ -5,6 +5,7 @@
 package grouprun
 
 import (
+	"fmt"
 	"math/big"
 	"math/rand"
 
@@ -12,7 +13,7 @@ import (
 )
 
 type Group struct {
-	Name      string   // order name in FieldConsts.tla
+	Name      string // order name in FieldConsts.tla
 	Impl      string
 	L         *big.Int // group order as the driver believes it (TLC uses its own constant)
 	ScalarMax *big.Int // largest scalar the multiplication entry points admit
@@ -128,111 +129,126 @@ func Run(g *Group, rng *rand.Rand, ntraces, steps int, tr0 int, emit func(Event)
 			}
 			return s
 		}
-		for s := 0; s < steps; s++ {
-			dst := rng.Intn(g.NRegs)
-			have := set()
-			var src, src2 int
-			if len(have) > 0 {
-				src, src2 = have[rng.Intn(len(have))], have[rng.Intn(len(have))]
-			}
-			op := rng.Intn(9)
-			if len(have) == 0 || s < 2 {
-				op = 0
-			}
-			switch {
-			case op == 0 && g.Base != nil:
-				e := ev("base")
-				k := pick()
-				if s == 0 {
-					k = big.NewInt(1) // the generator itself is always in the pool
-				} else if s == 1 && t%2 == 0 {
-					k = big.NewInt(int64(2 + rng.Intn(5)))
+		panicked := false
+		for s := 0; s < steps && !panicked; s++ {
+			func() {
+				defer func() {
+					if r := recover(); r != nil { // a group operation must not panic on admitted inputs: recorded, rejected by the spec
+						e := ev("panic")
+						e.Note = fmt.Sprint(r)
+						emit(e)
+						panicked = true
+					}
+				}()
+				dst := rng.Intn(g.NRegs)
+				have := set()
+				var src, src2 int
+				if len(have) > 0 {
+					src, src2 = have[rng.Intn(len(have))], have[rng.Intn(len(have))]
 				}
-				e.Dst, e.K = dst, vlib.Digits(k)
-				g.Base(dst, k)
-				form[dst] = red(&e, k)
-				emit(e)
-			case op == 1 && g.Mul != nil:
-				e := ev("mul")
-				k := pick()
-				e.Dst, e.A, e.K = dst, src, vlib.Digits(k)
-				g.Mul(dst, src, k)
-				form[dst] = red(&e, new(big.Int).Mul(new(big.Int).Mul(big.NewInt(g.Cof), k), form[src]))
-				emit(e)
-			case op == 2 && g.Add != nil:
-				// related operands on purpose: same register, or a register and its negation / double
-				e := ev("add")
-				e.Dst, e.A, e.B = dst, src, src2
-				fa, fb := form[src], form[src2]
-				g.Add(dst, src, src2)
-				form[dst] = red(&e, new(big.Int).Add(fa, fb))
-				emit(e)
-			case op == 3 && g.Dbl != nil:
-				e := ev("dbl")
-				e.Dst, e.A = dst, src
-				fa := form[src]
-				g.Dbl(dst, src)
-				form[dst] = red(&e, new(big.Int).Add(fa, fa))
-				emit(e)
-			case op == 4 && g.Neg != nil:
-				e := ev("neg")
-				e.Dst, e.A = dst, src
-				fa := form[src]
-				g.Neg(dst, src)
-				form[dst] = red(&e, new(big.Int).Sub(g.L, fa))
-				emit(e)
-			case (op == 5 || op == 6) && g.Combined != nil:
-				e := ev("combined")
-				m, n := pick(), pick()
-				switch rng.Intn(7) { // the corner cases of double-scalar multiplication
-				case 0:
-					n = new(big.Int).Set(m) // m = n
-				case 1:
-					n = new(big.Int).Mod(new(big.Int).Neg(m), g.L) // m = -n
-				case 2:
-					m = big.NewInt(0)
-				case 3: // m*G = n*S: the two partial results are the same point
-					m = new(big.Int).Mod(new(big.Int).Mul(n, form[src]), g.L)
-				case 4: // m*G = -(n*S): the sum is the identity
-					m = new(big.Int).Mod(new(big.Int).Neg(new(big.Int).Mul(n, form[src])), g.L)
-				case 5: // small equal scalars on a small multiple of G
-					m = big.NewInt(int64(1 + rng.Intn(6)))
-					n = new(big.Int).Set(m)
+				op := rng.Intn(9)
+				if len(have) == 0 || s < 2 {
+					op = 0
 				}
-				e.Dst, e.A, e.M, e.N = dst, src, vlib.Digits(m), vlib.Digits(n)
-				fa := form[src]
-				g.Combined(dst, src, m, n)
-				form[dst] = red(&e, new(big.Int).Add(m, new(big.Int).Mul(n, fa)))
-				emit(e)
-			case op == 7 && g.Recode != nil:
-				e := ev("decode")
-				e.Dst, e.A = dst, src
-				fa := form[src]
-				e.Ok = g.Recode(dst, src)
-				if e.Ok {
-					form[dst] = fa
+				switch {
+				case op == 0 && g.Base != nil:
+					e := ev("base")
+					k := pick()
+					if s == 0 {
+						k = big.NewInt(1) // the generator itself is always in the pool
+					} else if s == 1 && t%2 == 0 {
+						k = big.NewInt(int64(2 + rng.Intn(5)))
+					}
+					e.Dst, e.K = dst, vlib.Digits(k)
+					g.Base(dst, k)
+					form[dst] = red(&e, k)
+					emit(e)
+				case op == 1 && g.Mul != nil:
+					e := ev("mul")
+					k := pick()
+					e.Dst, e.A, e.K = dst, src, vlib.Digits(k)
+					g.Mul(dst, src, k)
+					form[dst] = red(&e, new(big.Int).Mul(new(big.Int).Mul(big.NewInt(g.Cof), k), form[src]))
+					emit(e)
+				case op == 2 && g.Add != nil:
+					// related operands on purpose: same register, or a register and its negation / double
+					e := ev("add")
+					e.Dst, e.A, e.B = dst, src, src2
+					fa, fb := form[src], form[src2]
+					g.Add(dst, src, src2)
+					form[dst] = red(&e, new(big.Int).Add(fa, fb))
+					emit(e)
+				case op == 3 && g.Dbl != nil:
+					e := ev("dbl")
+					e.Dst, e.A = dst, src
+					fa := form[src]
+					g.Dbl(dst, src)
+					form[dst] = red(&e, new(big.Int).Add(fa, fa))
+					emit(e)
+				case op == 4 && g.Neg != nil:
+					e := ev("neg")
+					e.Dst, e.A = dst, src
+					fa := form[src]
+					g.Neg(dst, src)
+					form[dst] = red(&e, new(big.Int).Sub(g.L, fa))
+					emit(e)
+				case (op == 5 || op == 6) && g.Combined != nil:
+					e := ev("combined")
+					m, n := pick(), pick()
+					switch rng.Intn(7) { // the corner cases of double-scalar multiplication
+					case 0:
+						n = new(big.Int).Set(m) // m = n
+					case 1:
+						n = new(big.Int).Mod(new(big.Int).Neg(m), g.L) // m = -n
+					case 2:
+						m = big.NewInt(0)
+					case 3: // m*G = n*S: the two partial results are the same point
+						m = new(big.Int).Mod(new(big.Int).Mul(n, form[src]), g.L)
+					case 4: // m*G = -(n*S): the sum is the identity
+						m = new(big.Int).Mod(new(big.Int).Neg(new(big.Int).Mul(n, form[src])), g.L)
+					case 5: // small equal scalars on a small multiple of G
+						m = big.NewInt(int64(1 + rng.Intn(6)))
+						n = new(big.Int).Set(m)
+					}
+					e.Dst, e.A, e.M, e.N = dst, src, vlib.Digits(m), vlib.Digits(n)
+					fa := form[src]
+					g.Combined(dst, src, m, n)
+					form[dst] = red(&e, new(big.Int).Add(m, new(big.Int).Mul(n, fa)))
+					emit(e)
+				case op == 7 && g.Recode != nil:
+					e := ev("decode")
+					e.Dst, e.A = dst, src
+					fa := form[src]
+					e.Ok = g.Recode(dst, src)
+					if e.Ok {
+						form[dst] = fa
+					}
+					emit(e)
+					if !e.Ok {
+						panicked = true // stop this sub-trace; the failed decode has been recorded
+						return
+					}
+				case op == 8 && g.Add != nil && g.Neg != nil && len(have) > 0: // P + (-P), P + P through Add
+					e := ev("neg")
+					e.Dst, e.A = dst, src
+					fa := form[src]
+					g.Neg(dst, src)
+					form[dst] = red(&e, new(big.Int).Sub(g.L, fa))
+					emit(e)
+					d2 := (dst + 1) % g.NRegs
+					e2 := ev("add")
+					e2.Dst, e2.A, e2.B = d2, src, dst
+					if _, ok := form[src]; ok {
+						fs, fd := form[src], form[dst]
+						g.Add(d2, src, dst)
+						form[d2] = red(&e2, new(big.Int).Add(fs, fd))
+						emit(e2)
+					}
 				}
-				emit(e)
-				if !e.Ok {
-					return
-				}
-			case op == 8 && g.Add != nil && g.Neg != nil && len(have) > 0: // P + (-P), P + P through Add
-				e := ev("neg")
-				e.Dst, e.A = dst, src
-				fa := form[src]
-				g.Neg(dst, src)
-				form[dst] = red(&e, new(big.Int).Sub(g.L, fa))
-				emit(e)
-				d2 := (dst + 1) % g.NRegs
-				e2 := ev("add")
-				e2.Dst, e2.A, e2.B = d2, src, dst
-				if _, ok := form[src]; ok {
-					fs, fd := form[src], form[dst]
-					g.Add(d2, src, dst)
-					form[d2] = red(&e2, new(big.Int).Add(fs, fd))
-					emit(e2)
-				}
-			}
+			}()
+		}
+		if panicked {
+			continue
 		}
 		have := set()
 		for i, a := range have {
